@@ -347,8 +347,9 @@ def check_history(case, rec):
         psiP = np.array(simu.Result("psiP", nodeValues=False), float).ravel()
         H = np.array(getattr(simu, hist_attr), float)
         where = f"step {k} amp={a:+.3f} {split}/{regu}/{solver} mesh={types} dim={dim}"
-        rec.require(np.isfinite(d).all() and np.isfinite(psiP).all(), "history_finite",
-                    "non-finite damage / psiP at " + where, **sig)
+        if not rec.require(np.isfinite(d).all() and np.isfinite(psiP).all(), "history_finite",
+                           "non-finite damage / psiP at " + where, **sig):
+            return  # listed class (3D closed-form decomposition): the rest of the history is poisoned
         loaded = loaded or a != 0.0
         if not loaded:
             rec.require(np.max(np.abs(d)) <= 1e-14, "noload_damage_zero",
@@ -382,9 +383,9 @@ def check_history(case, rec):
 
 
 SUBS = [
-    Sub("split_pointwise_2d", check_split, gen=split_cases(2), quick=300, thorough=4000, shards=6),
-    Sub("split_pointwise_3d", check_split, gen=split_cases(3), quick=250, thorough=4000, shards=6),
-    Sub("history", check_history, gen=history_cases, quick=120, thorough=1200, shards=4),
+    Sub("split_pointwise_2d", check_split, gen=split_cases(2), quick=800, thorough=6000, shards=6),
+    Sub("split_pointwise_3d", check_split, gen=split_cases(3), quick=600, thorough=6000, shards=6),
+    Sub("history", check_history, gen=history_cases, quick=400, thorough=2500, shards=6),
 ]
 
 LEVEL_TEXT = ("Hypothesis-generated strain fields (generic and degenerate spectra, mixed inside elements) through all "
